@@ -11,6 +11,11 @@ pub(crate) fn any_meta_map(buckets: usize) -> MetaMap {
     MetaMap { buckets, bitvec: bytes.to_vec() }
 }
 
+/// Same, from given metadata bytes (so the harness knows the initial contents without a loop).
+pub(crate) fn meta_map_from(bytes: [u8; N], buckets: usize) -> MetaMap {
+    MetaMap { buckets, bitvec: bytes.to_vec() }
+}
+
 pub(crate) fn byte(m: &MetaMap, i: usize) -> u8 {
     m.bitvec[i]
 }
